@@ -249,8 +249,14 @@ def whole_structure_case(ck, sg, st, SymmetryConstraints, ExpandAsymmetricUnit):
     for c in chosen:
         v = [ck.rng.randrange(-90, 91) / 1000.0 for _ in range(6)]
         coreU.append([[v[0] + 0.1, v[3], v[4]], [v[3], v[1] + 0.1, v[5]], [v[4], v[5], v[2] + 0.1]])
+    if ck.rng.random() < 0.35:
+        # mixed site: the same position listed twice with different tensors
+        chosen.append(chosen[0])
+        v = [ck.rng.randrange(-90, 91) / 1000.0 for _ in range(6)]
+        coreU.append([[v[0] + 0.2, v[3], v[4]], [v[3], v[1] + 0.2, v[5]], [v[4], v[5], v[2] + 0.2]])
     data = {"sites": [[str(strata.frac(p)) for p in st[c]["xyz"]] for c in chosen], "coreUijs": coreU,
-            "shuffle_seed": ck.rng.randrange(10 ** 9) if ck.rng.random() < 0.5 else None}
+            "shuffle_seed": ck.rng.randrange(10 ** 9) if ck.rng.random() < 0.5 else None,
+            "eps": None if ck.rng.random() < 0.6 else 1.0e-3, "noise_seed": ck.rng.randrange(10 ** 9)}
     prob = whole_eval(sg, data, SymmetryConstraints, ExpandAsymmetricUnit)
     return (prob, data) if prob else None
 
@@ -279,9 +285,21 @@ def whole_eval(sg, data, SymmetryConstraints, ExpandAsymmetricUnit):
     order = list(range(len(pos)))
     if data.get("shuffle_seed") is not None:
         random.Random(data["shuffle_seed"]).shuffle(order)  # otherwise grouped by orbit: later generators get large indices (U1112, ...)
+    if len({tuple(s_) for s_ in data["sites"]}) != len(data["sites"]):
+        # the same position twice: every listed site must have got ITS OWN projected tensor
+        for i in range(len(sites)):
+            gsite = ExpandAsymmetricUnit(sg, [corepos[i]], [coreU[i]])
+            for j in range(len(eau.expandedUijs[i])):
+                if not close(eau.expandedUijs[i][j], gsite.expandedUijs[0][j], 1e-9):
+                    return "site %d shares its position with another listed site and got tensors that are not those of its own input" % i
+        return None
+    eps = data.get("eps")
     P = [list(map(float, pos[i])) for i in order]
+    if eps is not None:
+        nr = random.Random(data.get("noise_seed", 0))
+        P = [[c + nr.choice([-1, 0, 1]) * 6e-5 for c in p_] for p_ in P]
     UU = [numpy.array(Us[i]) for i in order]
-    scs = SymmetryConstraints(sg, P, UU)
+    scs = SymmetryConstraints(sg, P, UU) if eps is None else SymmetryConstraints(sg, P, UU, eps=eps)
     vals = {n: Fraction(float(v)).limit_denominator(10 ** 12) for n, v in scs.Upars}
     for i, fm in enumerate(scs.UFormulas()):
         for s_ in USYM:
